@@ -365,3 +365,68 @@ func VerifC17TwoRuns(h *verifh.H) {
 	h.Assert(len(runner.raffle.runningJobs) == 0, "run slot released")
 	h.Observe("second", res2.LastError != "")
 }
+
+// VerifC17Sources: the recorded outcome of a run does not depend on the kind of
+// source the entities come from. A job with a log handler (maxItems 0, 1 or 2)
+// reads three entities through a DatasetSource or through a
+// UnionDatasetSource over two datasets (real verify/toTriggeredJobs/Run path,
+// batch size 1 or 2); the sink rejects a symbolic subset. The stored run
+// result carries the sink's error iff an entity was rejected — also when the
+// run was stopped by maxItems, whose stop marker is never what is recorded —
+// every entity delivered was not rejected, and the run slot is released.
+func VerifC17Sources(h *verifh.H) {
+	hub := server.VerifNewHub(h)
+	s1, _ := hub.Dsm.CreateDataset("src", nil)
+	s2, _ := hub.Dsm.CreateDataset("src2", nil)
+	_, _ = hub.Dsm.CreateDataset("dst", nil)
+	ents := vEntities(3)
+	union := h.Choice("union", 2) == 1
+	if union {
+		h.Assert(s1.StoreEntities(ents[:2]) == nil && s2.StoreEntities(ents[2:]) == nil, "sources written")
+	} else {
+		h.Assert(s1.StoreEntities(ents) == nil, "source written")
+	}
+	runner := vRunner(hub, 1, 1)
+	sch := &Scheduler{Logger: hub.Env.Logger, Store: hub.Store, Runner: runner, DatasetManager: hub.Dsm}
+	maxItems := h.Choice("maxItems", 3)
+	trig := JobTrigger{TriggerType: TriggerTypeCron, JobType: JobTypeIncremental, Schedule: "@every 60s",
+		ErrorHandlers: []*ErrorHandler{{Type: "log", MaxItems: maxItems}}}
+	cfg := &JobConfiguration{ID: "job-1", Title: "job one",
+		Source:   map[string]interface{}{"Type": "DatasetSource", "Name": "src"},
+		Sink:     map[string]interface{}{"Type": "DatasetSink", "Name": "dst"},
+		Triggers: []JobTrigger{trig}}
+	if union {
+		cfg.Source = map[string]interface{}{"Type": "UnionDatasetSource", "DatasetSources": []interface{}{
+			map[string]interface{}{"Type": "DatasetSource", "Name": "src"}, map[string]interface{}{"Type": "DatasetSource", "Name": "src2"}}}
+	}
+	h.Assert(sch.verify(cfg) == nil, "definition accepted")
+	jobs, err := sch.toTriggeredJobs(cfg)
+	h.Assert(err == nil && len(jobs) == 1, "one job")
+	if err != nil || len(jobs) != 1 {
+		return
+	}
+	j := jobs[0]
+	sink := &vSink{failBatch: -1, failing: map[string]bool{}}
+	nfail := 0
+	for i := range ents {
+		if h.Bool("fail" + strconv.Itoa(i)) {
+			sink.failing[ents[i].ID] = true
+			nfail++
+		}
+	}
+	j.pipeline.spec().sink = sink
+	j.pipeline.spec().batchSize = 1 + h.Choice("batchSize", 2)
+	j.Run()
+	res := &jobResult{}
+	h.Assert(hub.Store.GetObject(server.JobResultIndex, "job-1", res) == nil && res.ID == "job-1", "run result stored")
+	sinkErr := len(res.LastError) >= 12 && res.LastError[:12] == "sink rejects"
+	h.Assert((res.LastError != "") == (nfail > 0), "the recorded outcome carries an error iff an entity was rejected :: lastError="+res.LastError+" rejected="+strconv.Itoa(nfail))
+	if nfail > 0 {
+		h.Assert(sinkErr, "the error recorded is the sink's, whatever the source and also when maxItems stopped the run :: lastError="+res.LastError)
+	}
+	for _, e := range sink.delivered {
+		h.Assert(!sink.failing[e.ID], "a rejected entity is not delivered")
+	}
+	h.Assert(len(runner.raffle.runningJobs) == 0 && runner.raffle.ticketsIncr == 1, "run slot released")
+	h.Observe("lastError", res.LastError)
+}
